@@ -15,7 +15,8 @@ Docs == {D1, D2, Dfield, Dbib, Dbul, Dlit, Ddir, Dlead, Dnote}
 SomeDocs == {D1, Ddir, Dlead}
 \* nlate: how many of the class's last members are declared AFTER its inner classes in the source (rendering is the same)
 E == [k |-> "", name |-> "", args |-> <<>>, doc |-> D0, value |-> "", vtype |-> "", help |-> "", bases |-> <<>>,
-      ctors |-> <<>>, members |-> <<>>, attrs |-> <<>>, inner |-> <<>>, nlate |-> 0]
+      ctors |-> <<>>, members |-> <<>>, attrs |-> <<>>, inner |-> <<>>, nlate |-> 0, impl |-> ""]
+\* impl: this function entry stems from the doccomment on the definition that implements member <impl> of the class before it
 \* a '@module' doccomment at the top of the file (unnamed: the name comes from the run)
 Mod(d) == [k |-> "module", name |-> "MODNAME", hasdoc |-> TRUE, doc |-> d]
 Fn(d) == [E EXCEPT !.k = "function", !.name = "@", !.args = <<"a", "b">>, !.doc = d]
@@ -49,5 +50,8 @@ ModulePages == {<<Mod(d)>> : d \in Docs} \cup {<<Mod(d), Kind9(i, d2)>> : d \in 
 \* members of the outer class declared after an inner class has ended
 LateMemberPages == {<<[Cl(d, <<>>, <<>>, <<M("m1", <<"int">>, <<"a">>, FALSE, d), M("m2", <<>>, <<>>, FALSE, d2)>>, <<>>, <<"n2">>) EXCEPT !.nlate = 1],
                       Cl(d2, <<>>, <<>>, <<M("im", <<>>, <<>>, FALSE, D1)>>, <<>>, <<>>), Fn(D1)>> : d \in SomeDocs, d2 \in {D0, D1, Dbul}}
-AllPages == ModulePages \cup LateMemberPages \cup LongPages \cup MacroTestPages \cup TwoInnerPages \cup SinglePages \cup UndocPages \cup PairPages \cup ClassPages
+\* a documented member whose implementing function carries a doccomment of its own: an entry of its own after the class
+ImplDocPages == {<<Cl(D1, <<>>, <<>>, <<M("m1", <<"int">>, <<"a">>, FALSE, d2)>>, <<>>, <<>>),
+                   [Fn(d3) EXCEPT !.name = "\"${m1}\"", !.args = <<"self", "a">>, !.impl = "m1"]>> : d2 \in {D0, D1, Dbul}, d3 \in {D1, Dnote, Dbul, Dfield}}
+AllPages == ImplDocPages \cup ModulePages \cup LateMemberPages \cup LongPages \cup MacroTestPages \cup TwoInnerPages \cup SinglePages \cup UndocPages \cup PairPages \cup ClassPages
 =============================================================================
